@@ -156,8 +156,11 @@ class LFRicInvoke(Invoke):
         # all loops in this Invoke
         self.loop_bounds = LFRicLoopBounds(self)
 
-        # Extend argument list with stencil information
-        self._alg_unique_args.extend(self.stencil.unique_alg_vars)
+        # Extend argument list with stencil information. The Algorithm
+        # layer must pass the extent/direction arguments as they were
+        # written in the invoke (e.g. 'n(1)', 'info%depth'), not the names
+        # of the corresponding PSy-layer dummy arguments.
+        self._alg_unique_args.extend(self.stencil.unique_alg_texts)
 
         # Adding in qr arguments
         self._alg_unique_qr_args = []
